@@ -396,9 +396,12 @@ func (p *Polyline) decode(d *decoder) {
 	}
 	*p = make([]Point, nvertices)
 	for i := range *p {
-		(*p)[i].X = d.readFloat64()
-		(*p)[i].Y = d.readFloat64()
-		(*p)[i].Z = d.readFloat64()
+		(*p)[i].X = d.readCoordinate()
+		(*p)[i].Y = d.readCoordinate()
+		(*p)[i].Z = d.readCoordinate()
+	}
+	if d.err != nil {
+		*p = nil
 	}
 }
 
